@@ -26,7 +26,7 @@ def h_offline(f, N, kind='offline', ext=True, times='origin', twice=0, period=No
 
     def body(env):
         A = env.A
-        s = dt.make_spec(kind, 'out = ' + text(f), vs, period=(tuple(period) + (0.1,)) if period else None)
+        s = dt.make_spec(kind, 'out = ' + text(f), vs, period=(tuple(period) + (0.1,)) if period else None, f=f)
         w = dt.trace(env, vs, N, ext=ext and not uf)
         if uf:
             for v in vs:
@@ -111,6 +111,12 @@ def obligations(tier, rng):
             out.append(ob('C01', 'offline', 'period500ms/%s/%s/N=6' % (kind, f[1]), f=f, N=6, kind=kind, ext=True, times='period', period=[500, 'ms']))
     out.append(ob('C01', 'offline', 'period250us/combined/once[250us:500us](x)/N=4', f=('raw', 'once[250us:500us](x)', ('once_t', X, 1, 2)), N=4, kind='combined', ext=True,
                   times='period', period=[250, 'us']))
+    # the shared pool of notation cases (vf/pool.py): units, one-sided units, fractional bounds, other periods and default units
+    from .. import pool
+    for i, g in enumerate(pool.ALL):
+        for N in (2, 6):
+            out.append(ob('C01', 'offline', 'pool/%s/P=%s/unit=%s/N=%d' % (g[1], g[3] or '-', g[4] or '-', N), f=g, N=N, kind='offline' if (i + N) % 3 else 'combined',
+                          ext=True, times='fixed'))
     # depth 2 on traces that are shorter than (or exactly as long as) the bound of the inner future operator
     inner_fut = [('eventually_t', X, 0, 3), ('always_t', X, 1, 3), ('until_t', X, Y, 0, 3), ('unless_t', X, Y, 1, 3), ('eventually_t', X, 2, 2)]
     outer_all = ops_un + list(refsem.UNT) + ops_bin + list(refsem.BINT)
